@@ -29,7 +29,8 @@ CLAIMED = {
             "ReplayReturnsOriginal exhaustively (heights 1-2, rounds 0-1, 3 steps, 3 block ids, 2 timestamps). The real SFilePV is driven with "
             "TLC-simulated and random request sequences incl. reloads from the files and a process death injected (hook) between persist and release; "
             "TLC evaluates the C20 predicates on the recorded signatures, returned timestamps and decoded state-file contents. Every sequence runs under one of "
-            "four order-preserving embeddings of heights / rounds into the 64 / 32-bit ranges (next to 2^29, 2^31, 2^62, the top of int32). Thorough tier: "
+            "four order-preserving embeddings of heights / rounds into the 64 / 32-bit ranges (next to 2^29, 2^31, 2^62, the top of int32) and one of four "
+            "concretisations of the abstract block ids (all components differ / only the part-set hash / only the number of parts / only the block hash). Thorough tier: "
             "Apalache proves an inductive invariant (PrivValInd.tla, contains NoDoubleSign and PersistBeforeRelease) - unbounded in the number of steps.",
             "small-scope exhaustive design (+ inductive invariant for any number of steps); sampled request sequences for the code; atomic file replacement and secp256k1 trusted",
             "DESIGN.md 4.7, 6/C20"),
@@ -55,7 +56,8 @@ def app(text, ref, level="model_checking"):
 
 CLAIMED.update({
     "C01": ("exploration", "2-safety on recorded replica pairs (ReplicasTrace.tla): same history in a separate OS process and directory, and with restarts",
-            "Every history is executed by replica A in-process, by replica B in a separately started OS process on its own directory, and by a "
+            "Every history is executed by replica A in-process, by replica B in a separately started OS process on its own directory (started in a "
+            "later second of the wall clock), and by a "
             "replica restarted at random block boundaries; TLC checks that every DeliverTx result (code, data, gas), every validator-update list "
             "and every application hash is identical, and that the consensus-state digests agree after every call.",
             "one Go toolchain/architecture; histories sampled", "DESIGN.md 6/C01"),
@@ -75,7 +77,8 @@ CLAIMED.update({
             "(ReplicasTrace.tla): quiet replica vs replica with CheckTx/Query injected in every gap + stepwise clause on recorded CheckTx calls (RigoTrace.tla)",
             "For every block of the base histories (some with restarts), every gap (before BeginBlock, between DeliverTx calls, before EndBlock, before and "
             "after Commit) x every element of a state-aware pool (duplicates of block transactions, staking/unstaking against every delegatee, next "
-            "transfers, withdraw, proposal, vote, garbage, every query path at several heights) is injected into replica B; outputs and consensus-state "
+            "transfers, withdraw, proposal, vote, garbage, re-checks (CheckTx of type Recheck), every query path at several heights) is injected into "
+            "replica B, plus mempool sessions (a transaction seen before its block, the sender's next one, waiting transactions re-checked after the commit); outputs and consensus-state "
             "digests must equal the quiet replica's after every call. Single-replica histories with heavy mempool-only traffic: every recorded CheckTx "
             "must leave everything block execution reads unchanged (ledgers, parameters, block limiter, reported validator set, EVM bridge state), and "
             "its result must be the one RigoCore.tla's scratch view predicts (RigoConf.tla). Design level: MC_Mempool interleaves a CheckTx of any "
@@ -98,7 +101,7 @@ CLAIMED.update({
     "C09": ("exploration", "hostile-input exploration on the real application judged by HostileTrace.tla (no panic, rejected input leaves the state digest unchanged, probe still succeeds)",
             "Structure-aware hostile generators (random bytes, mutated valid encodings, hostile envelopes, correctly signed transactions with hostile "
             "payloads, every valid transaction with exactly one wire field replaced by a hostile value, proposals valid in everything but type / option list, "
-            "queries on every path with hostile data/heights) against CheckTx, DeliverTx at every block position and Query; restarts with mempool traffic "
+            "valid UTF-8 strings around the length limits, every opcode 0x00-0xff as contract code, queries on every path with hostile data/heights) against CheckTx, DeliverTx at every block position and Query; restarts with mempool traffic "
             "before the next block; ten settlement blocks afterwards (a panic in a later consensus call is judged too); coverage is reported per deepest "
             "validation layer reached.", "sampling of an infinite input space; the specification supplies the oracle", "DESIGN.md 6/C09"),
     "C10": app("Validator updates of every EndBlock are folded over the genesis set; the result must be a correct top selection (eligibility by own "
@@ -132,7 +135,8 @@ CLAIMED.update({
             "the go-ethereum interpreter is trusted; assembled program templates (no compiler in the sandbox) + random parameters", "DESIGN.md 6/C17"),
     "C19": app("Every query (account, delegatee, reward, gov_params, total power) at any height 1..latest, asked between blocks, mid-block and after "
                "restarts, must equal the consensus view recorded at the end of that block; beyond-latest heights must fail; raw answers for a past "
-               "height never change; at every commit the full state read back through queries equals what the block committed.", "DESIGN.md 6/C19"),
+               "height never change (every commit first asks all paths again for the previous height); at every commit the full state read back "
+               "through queries equals what the block committed.", "DESIGN.md 6/C19"),
 })
 
 NOT_YET = "check not built yet in this round (planned: see DESIGN.md section 6)"
